@@ -84,14 +84,32 @@ pub struct Shrunk {
 }
 
 /// Shrink while a violation of kind `kind` (with the same known-finding attribution) persists.
-pub fn shrink(check: &str, tier: &str, case: &Case, seed: u64, run: u64, kind: &str, known: Option<&str>, budget: usize) -> Shrunk {
+/// the wording of a violation without the numbers and names in it: "the same violation" for the
+/// shrinker means same kind and same shape
+pub fn shape(detail: &str) -> String {
+    let mut out = String::new();
+    for w in detail.split_whitespace() {
+        if w.chars().any(|c| c.is_ascii_digit()) || w.starts_with('[') || w.ends_with(']') {
+            continue;
+        }
+        out.push_str(w);
+        out.push(' ');
+        if out.len() > 70 {
+            break;
+        }
+    }
+    out
+}
+
+pub fn shrink(check: &str, tier: &str, case: &Case, seed: u64, run: u64, kind: &str, detail: &str, known: Option<&str>, budget: usize) -> Shrunk {
+    let want_shape = shape(detail);
     let mut cur = Case { program: case.program.clone(), config: case.config.clone() };
     let ops_before = cur.program.total_ops();
     let mut evals = 0usize;
     let still_fails = |c: &Case, evals: &mut usize| -> bool {
         *evals += 1;
         let rep = judge(check, tier, c, seed, run);
-        rep.violations.iter().any(|v| v.kind == kind && v.known.as_deref() == known)
+        rep.violations.iter().any(|v| v.kind == kind && v.known.as_deref() == known && shape(&v.detail) == want_shape)
     };
     let mut progress = true;
     while progress && evals < budget {
